@@ -58,6 +58,7 @@ func (o flattenOpts) String() string {
 type flattenArgs struct {
 	Opts    flattenOpts `json:"opts"`
 	InW     bool        `json:"inW"`
+	Anon    bool        `json:"anon"`    // the bundle holds anonymous pointers (naming re-targets dependants: not modelled constructively)
 	FailAt  int         `json:"failAt"`  // fail the k-th document load (0 = none)
 	Second  bool        `json:"second"`  // run the idempotence pass
 	Rerun   bool        `json:"rerun"`   // run again from the files and compare bytes (C05 reproducibility)
@@ -73,6 +74,7 @@ type flattenRec struct {
 	Keep       bool              `json:"keep"`
 	Cont       bool              `json:"cont"`
 	InW        bool              `json:"inW"`
+	Anon       bool              `json:"anon"`
 	Bundle     map[string]*Node  `json:"bundle"`
 	XKeys      []string          `json:"xkeys"`
 	OK         bool              `json:"ok"`
@@ -106,9 +108,11 @@ type phaseSnap struct {
 
 // stepEvent is a fine-grained hook event (import.new, name, pointer.*, strip.one, reload) with its arguments.
 type stepEvent struct {
-	Ev   string   `json:"ev"`
-	Args []string `json:"args"`
-	At   int      `json:"at"` // number of phase snapshots taken before this event
+	Ev     string     `json:"ev"`
+	Target []string   `json:"target"` // import.*: the remote target <<docId, tok...>> ; pointer.* / strip.one: the $ref involved
+	Name   string     `json:"name"`   // import.* / name: the definition name chosen
+	Keys   [][]string `json:"keys"`   // holder keys (paths in the root)
+	At     int        `json:"at"`     // number of phase snapshots taken before this event
 }
 
 type fullAnswers struct {
@@ -270,7 +274,7 @@ func opFlatten(req *Req) (any, map[string]string, error) {
 	names.rebuild()
 	pj := &Projector{Names: names, Files: &FileTable{Paths: req.Files}}
 	o := args.Opts
-	rec := &flattenRec{Tid: req.ID, Mode: o.Mode(), RU: o.RemoveUnused, Keep: o.KeepNames, Cont: o.ContinueOnError, InW: args.InW,
+	rec := &flattenRec{Tid: req.ID, Mode: o.Mode(), RU: o.RemoveUnused, Keep: o.KeepNames, Cont: o.ContinueOnError, InW: args.InW, Anon: args.Anon,
 		Bundle: map[string]*Node{}, FailAt: args.FailAt, Crash: "none", Second: false, Fold: map[string]string{}, XKeys: []string{},
 		Doc: NewNode(), Doc2: NewNode(), Getters: emptyFull(), Fresh: emptyFull()}
 
@@ -306,7 +310,28 @@ func opFlatten(req *Req) (any, map[string]string, error) {
 				}
 				return
 			}
-			rec.Events = append(rec.Events, stepEvent{Ev: ev, Args: append([]string{}, hargs...), At: len(rec.Phases)})
+			se := stepEvent{Ev: ev, Target: []string{}, Keys: [][]string{}, At: len(rec.Phases)}
+			switch ev {
+			case "import.new", "import.known":
+				se.Target = pj.ParseRef(hargs[0], "root")
+				se.Name = names.Abs(hargs[1])
+				for _, k := range strings.Split(hargs[2], "\x00") {
+					se.Keys = append(se.Keys, parseKey(pj, k))
+				}
+			case "name":
+				se.Keys = [][]string{pj.ParseRef(hargs[0], "root")[1:]}
+				se.Name = names.Abs(hargs[1])
+			case "pointer.top", "pointer.named", "pointer.expanded":
+				se.Keys = [][]string{parseKey(pj, hargs[0])}
+				se.Target = pj.ParseRef(hargs[1], "root")
+			case "strip.one":
+				se.Keys = [][]string{parseKey(pj, hargs[0])}
+				se.Target = pj.ParseRef(hargs[1], "root")
+			case "reload":
+			default:
+				return
+			}
+			rec.Events = append(rec.Events, se)
 		}
 	}
 	resetLoader(args.FailAt)
